@@ -227,7 +227,7 @@ def allValues (cfg : Store) : List Val :=
 /-- `validate_macros_hook`: every reference to the macro configurable must have a bound value in its
     own scope and must be evaluated. -/
 def macroRefOk (cfg : Store) : Val → Bool
-  | .macro name => AList.contains ((if name.isEmpty then [] else name.splitOn "/"), macroSel) cfg
+  | .macro name => AList.contains ((if name.isEmpty then [] else splitChar name '/'), macroSel) cfg
   | .ref scopes sel ev => if sel == macroSel then ev && AList.contains (scopes, macroSel) cfg else true
   | _ => true
 
@@ -294,7 +294,7 @@ def defConstant (st : State) (name : Sel) (nameValid : Bool) (v : Val) : Except 
 
 /-- `ParserDelegate.macro` (861-869): what `%name` becomes at parse time -/
 def resolveMacro (st : State) (name : String) : Except Err Val :=
-  match st.constants.matching (name.splitOn ".") with
+  match st.constants.matching (splitChar name '.') with
   | [] => .ok (.macro name)
   | [full] => .ok (.const full)
   | _ => .error .valueError
